@@ -404,6 +404,9 @@ def build_world(sched, cpu_count=2, psutil=True, environ=None):
         p = s.procs.get(pid)
         if p is None or p.reaped:
             raise ProcessLookupError(3, "No such process")
+        if p.alive and int(signum) != 9 and int(signum) in p.info.get("ignored_signals", ()):
+            s.trace.append(("signal-ignored", p.label, int(signum)))
+            return          # the target ignores / handles this signal (SIGKILL cannot be)
         if p.alive:
             s.trace.append(("killed-by", s.cur.full, p.label))
             s.kill_proc(p, s.cur, -int(signum))
@@ -440,6 +443,11 @@ def build_world(sched, cpu_count=2, psutil=True, environ=None):
 
     def warn(message, category=UserWarning, stacklevel=1, source=None):
         w.warnings.append((getattr(category, "__name__", str(category)), str(message)[:200]))
+        if getattr(w, "werror", False) and not getattr(w, "exiting", False):
+            # the interpreter runs with warnings turned into errors (-W error)
+            if isinstance(message, Warning):
+                raise message
+            raise (category or UserWarning)(message)
     wm.warn = warn
     wm.catch_warnings = _rw.catch_warnings
     wm.simplefilter = lambda *a, **k: None
